@@ -38,7 +38,7 @@ Proof.
   set (PC := fun _ : cid => True). set (PR := fun _ : rid => True). set (PI := fun m : item => m <> i).
   assert (Hsafe : forall j ds, Forall (cov_rd st j) ds -> Forall (safe_rd st PC PR PI) ds).
   { intros j ds Hc. eapply Forall_impl; [|exact Hc]. intros x Hx.
-    destruct x as [m|c|r|c r]; simpl in *; try exact I.
+    destruct x as [m|c|r|c r|]; [| | | |simpl in *; contradiction]; simpl in *; try exact I.
     destruct Hx as (He & Hm). split; [|split; [exact I|exact Hm]]. intros ->. contradiction. }
   assert (AG : Agree st (defs_of st') (input_data st') PC PR PI).
   { constructor.
@@ -66,7 +66,7 @@ Proof.
         * eapply locality_own; eauto. exact I.
         * unfold dr_own, defs_of in A; simpl in A. rewrite Ecj in A. discriminate.
       + eapply Forall_impl; [|exact B]. intros x Hx.
-        destruct x as [m|c|r|c r]; simpl in *; try exact Hx.
+        destruct x as [m|c|r|c r|]; [| | | |simpl in *; contradiction]; simpl in *; try exact Hx.
         destruct Hx as (He & Hm'). split; [exact He|now apply Hhas].
     - intros a m He. simpl. rewrite mem_item_add. change (s_edges st') with (s_edges st) in He.
       rewrite (cv_input _ C a m He). simpl. apply item_eqb_neq. intros ->. now apply (Hnoedge a).
